@@ -7,6 +7,10 @@ pub mod rope_ax {
   /// a Vec never holds more than usize::MAX elements (`Vec::len` returns usize)
   pub axiom fn axiom_vec_len_bound<T>(v: &Vec<T>)
     ensures v@.len() <= usize::MAX;
+  /// std: `Display for &T` forwards to `T`, and `Display for str` writes the string (vstd states the latter as
+  /// to_string_from_display_ensures_for_str); `to_string()` on a `&&str` goes through the blanket `ToString for T: Display`
+  pub broadcast axiom fn axiom_to_string_ref_str(s: &&str, res: String)
+    ensures #[trigger] vstd::string::to_string_from_display_ensures::<&str>(s, res) ==> res@ == (*s)@;
   pub broadcast axiom fn axiom_str_len_bound(s: &str)
     ensures #[trigger] s.spec_bytes().len() <= usize::MAX;
 }
@@ -45,6 +49,7 @@ pub assume_specification<'a, T, F: FnMut(&'a T) -> Ordering>[<[T]>::binary_searc
     Err(i) => i <= s@.len() && (forall|j: int| 0 <= j < i ==> f.ensures((&#[trigger] s@[j],), Ordering::Less)) && (forall|j: int| i <= j < s@.len() ==> f.ensures((&#[trigger] s@[j],), Ordering::Greater)),
   };
 
+pub open spec fn cow_bytes(c: &Cow<[u8]>) -> Seq<u8> { match c { Cow::Borrowed(b) => b@, Cow::Owned(v) => v@ } }
 /// the text a piece list denotes
 pub open spec fn chunks_bytes(d: Seq<(&str, usize)>) -> Seq<u8> decreases d.len() {
   if d.len() == 0 { Seq::<u8>::empty() } else { chunks_bytes(d.drop_last()) + d.last().0.spec_bytes() }
@@ -280,4 +285,17 @@ pub proof fn lemma_no_piece(d: Seq<(&str, usize)>)
 {
   lemma_chunks_valid(d);
   is_char_boundary_start_end_of_seq(chunks_bytes(d));
+}
+pub proof fn lemma_str_bytes(s: &str)
+  ensures encode_utf8(s@) == s.spec_bytes()
+{
+  broadcast use {vstd::string::group_string_axioms, vstd::utf8::group_utf8_lib};
+}
+pub proof fn lemma_empty_string(c: Seq<char>)
+  requires c.len() == 0
+  ensures encode_utf8(c) == Seq::<u8>::empty()
+{
+  broadcast use vstd::utf8::group_utf8_lib;
+  assert(c =~= Seq::<char>::empty());
+  assert(encode_utf8(Seq::<char>::empty()) =~= Seq::<u8>::empty());
 }
